@@ -135,7 +135,7 @@ DevItpGlobal == [NoDev EXCEPT !.itpGlobal = TRUE]
 DevCacheFF == [NoDev EXCEPT !.cacheFF = TRUE]
 DevWriterAppend == [NoDev EXCEPT !.writerAppend = TRUE]
 DevFlushLate == [NoDev EXCEPT !.flushLate = TRUE]
-\* what /repo currently does (known_findings.d: the three open findings of C13)
+\* the three findings of C13 (F31, F32, F33: repaired) switched on together - what /repo did before the repairs
 DevKnown == [NoDev EXCEPT !.dfsTreeFrag = TRUE, !.fragIdOrder = TRUE, !.itpGlobal = TRUE]
 DevKnownCanon == [DevKnown EXCEPT !.canonMatch = TRUE]
 =============================================================================
